@@ -5,34 +5,46 @@
 (* control path of Position.tla with exact rationals.                       *)
 EXTENDS Position, TLC
 
-CONSTANT MaxFills
+CONSTANTS MaxFills,
+          Direct      \* TRUE: a Position object used directly (it survives being flat and is traded again);
+                      \* FALSE: through the PositionHandler (deleted at zero, a later fill opens a fresh record)
 
 Qs == { -3, -1, 1, 2 }
 Ps == { 8000, 10500, 12250 }
 Cs == { 0, 125, 1040 }
 
-VARIABLES P, n, last      \* the position (NoPos when flat), number of fills so far, last step kind
-vars == << P, n, last >>
+VARIABLES P, n, last,     \* the position (NoPos when absent), number of fills so far, last step kind
+          view            \* derived: what the Position object's properties must answer
+vars == << P, n, last, view >>
+
+ViewOf(X) == IF X = NoPos THEN [none |-> TRUE]
+             ELSE [net |-> Net(X), mv |-> MarketValue(X), avg |-> AvgPrice(X), rpnl |-> Realised(X),
+                   upnl |-> Unrealised(X), tpnl |-> Total(X), px |-> X.px]
 
 Held == P # NoPos
-Init == P = NoPos /\ n = 0 /\ last = "init"
+Init == P = NoPos /\ n = 0 /\ last = "init" /\ view = ViewOf(NoPos)
 
 Fill(q, p, c) ==
   /\ n < MaxFills
-  /\ LET ps == IF Held THEN ("X" :> P) ELSE << >>
-         r  == TransactPosition(ps, "X", q, p, c, n + 1)
-     IN  P' = IF "X" \in DOMAIN r THEN r["X"] ELSE NoPos
-  /\ n' = n + 1 /\ last' = "fill"
-MarkTo(p) == Held /\ P' = Mark(P, p, n) /\ n' = n /\ last' = "mark"
+  /\ IF Direct
+     THEN P' = IF Held THEN Transact(P, q, p, c, n + 1) ELSE OpenFrom(q, p, c, n + 1)
+     ELSE LET ps == IF Held THEN ("X" :> P) ELSE << >>
+              r  == TransactPosition(ps, "X", q, p, c, n + 1)
+          IN  P' = IF "X" \in DOMAIN r THEN r["X"] ELSE NoPos
+  /\ n' = n + 1 /\ last' = "fill" /\ view' = ViewOf(P')
+MarkTo(p) == Held /\ P' = Mark(P, p, n) /\ n' = n /\ last' = "mark" /\ view' = ViewOf(P')
 
 Next == (\E q \in Qs, p \in Ps, c \in Cs : Fill(q, p, c)) \/ (\E p \in Ps : MarkTo(p))
 Spec == Init /\ [][Next]_vars
 
-C03_Identities == Held => PnlReconciles(P) /\ Net(P) # 0
+C03_Identities == Held => PnlReconciles(P) /\ (Direct \/ Net(P) # 0)
+\* vacuity probe for the direct mode: flat and traded again
+NeverRetradedFromFlat == ~(Direct /\ Held /\ P.bq > 0 /\ P.sq > 0 /\ Net(P) # 0 /\ n >= 3)
 C03_Mark == [][ last' = "mark" => /\ REq(Realised(P'), Realised(P)) /\ Net(P') = Net(P)
                                   /\ P'.bq = P.bq /\ P'.sq = P.sq /\ P'.paid = P.paid /\ P'.fees = P.fees ]_vars
 \* vacuity probes (each must be REFUTED by a run that looks for it)
 NeverFlipped == ~(Held /\ P.bq > 0 /\ P.sq > 0 /\ Net(P) < 0)
 NeverReopened == ~(Held /\ n >= 3 /\ P.bq + P.sq <= 3 /\ n > P.bq + P.sq)
 View == << P, n >>
+SimView == << P, n, last, view >>
 =============================================================================
